@@ -21,12 +21,13 @@ def main():
     cat = json.load(open(os.path.join(here, "..", "harness", "razor_pairs.json")))
     n = 0
     for key, prs in cat.items():
-        t, side, _role = key.split("_")
+        ultra = key.startswith("ultra_")
+        t, side, _role = key.replace("ultra_", "").split("_")
         t = Fraction(t)
         for a, b in prs:
             la, lb = lum(a), lum(b)
             r = (max(la, lb) + Fraction(1, 20)) / (min(la, lb) + Fraction(1, 20))
-            if abs(r - t) > Fraction(32, 10 ** 8) or (r >= t) != (side == "above"):
+            if abs(r - t) > (Fraction(12, 10 ** 10) if ultra else Fraction(32, 10 ** 8)) or ((r >= t) != (side == "above") and not ultra):
                 print("razor catalogue entry off:", key, a, b, float(r))
                 sys.exit(1)
             n += 1
